@@ -200,7 +200,7 @@ theorem finishLoop_spec (sepf : Nat → Nat → Option Nat) (KB : Nat) (hsep : S
         · obtain ⟨y, hy, hyx⟩ := List.mem_map.1 hl
           have : y = l := by cases hyx; rfl
           subst this
-          exact o.sizes y hy
+          exact digest_newGood hrs.inv o y hy
     cases hcut : r.st.cutoff with
     | none =>
       obtain ⟨st', leaves, res, ed, o⟩ := digest_spec sepf KB hsep r.st hrs.inv
